@@ -978,14 +978,32 @@ func (m *rmJSON) hashData() string {
 	return fmt.Sprintf("%v:%v:%v:%v:%v:%v:%v", m.AllocationID, m.BlobberID, m.ClientID, m.ClientPublicKey, m.OwnerID, m.ReadCounter, m.Timestamp)
 }
 
-// st.read A=reader client I=[alloc, mode, blobberPos, counterKind, fault, senderKind]
+// st.read A=reader client I=[alloc, mode, blobberPos, counterKind, fault, senderKind, timestampKind]
+//
+// timestampKind (absent = 0): 0 now; 1 one second before the marker stored for the triple; 2 midway between the
+// allocation's start and the stored marker; 3 the allocation's start; 4 an hour ahead of the clock (capped at the
+// expiry) so that the next marker signed "now" is the older one. Kinds 1-4 stay inside [start, expiry]: the marker
+// is valid, only its timestamp is not monotone with its counter. With fault 9, timestampKind 7 replays the most
+// recently redeemed marker (sent by its own blobber) instead of an arbitrary earlier one.
 func (sw *SW) opRead(st sim.Step) {
 	vw := sw.view()
 	fault := abs(st.Int(4, 0)) % 10
+	tsKind := abs(st.Int(6, 0)) % 8
 	if fault == 9 && len(sw.lastRead) > 0 {
 		in := sw.lastRead[int(abs(st.Int(3, 0)))%len(sw.lastRead)]
-		b := sw.blobber(st.Int(2, 0))
+		b := sw.blobber(st.Int(2, 0)).Client
 		sw.W.Tr.Fault("read_marker_replayed")
+		if tsKind == 7 {
+			in = sw.lastRead[len(sw.lastRead)-1]
+			var r struct {
+				RM rmJSON `json:"read_marker"`
+			}
+			_ = json.Unmarshal([]byte(in), &r)
+			if c := sw.actorByID(r.RM.BlobberID); c != nil {
+				b = c
+			}
+			sw.W.Tr.Fault("read_marker_last_redeemed_replayed")
+		}
 		sw.call(b.ID, b.PK, "read_redeem", in, 0)
 		return
 	}
@@ -1025,8 +1043,30 @@ func (sw *SW) opRead(st sim.Step) {
 		ctr = cur + 7
 	}
 	m := rmJSON{ClientID: reader.ID, ClientPublicKey: reader.PK, BlobberID: blobberID, AllocationID: id, Timestamp: int64(sw.W.Now), ReadCounter: ctr}
+	storedTS := vw.ReadTS[keyReadConn(blobberID, reader.ID, id)]
 	if av != nil {
 		m.OwnerID = av.Owner
+		ts := m.Timestamp
+		switch tsKind {
+		case 1:
+			if storedTS > 0 {
+				ts = storedTS - 1
+			}
+		case 2:
+			if storedTS > 0 {
+				ts = av.StartTime + (storedTS-av.StartTime)/2
+			}
+		case 3:
+			ts = av.StartTime
+		case 4:
+			ts = m.Timestamp + 3600
+		}
+		if ts > av.Expiration {
+			ts = av.Expiration
+		}
+		if ts >= av.StartTime && ts > 0 {
+			m.Timestamp = ts
+		}
 	}
 	signer := reader
 	switch fault {
@@ -1049,6 +1089,14 @@ func (sw *SW) opRead(st sim.Step) {
 		if av != nil {
 			m.Timestamp = av.StartTime - 1
 			sw.W.Tr.Fault("read_marker_before_start")
+		}
+	}
+	olderTS := av != nil && storedTS > 0 && m.Timestamp < storedTS && m.Timestamp >= av.StartTime && m.Timestamp <= av.Expiration
+	if olderTS {
+		// a valid marker the client signed *before* the one already redeemed
+		sw.W.Tr.Fault("read_marker_older_timestamp")
+		if ctr > cur {
+			sw.W.Tr.Fault("read_marker_older_timestamp_higher_counter")
 		}
 	}
 	m.Signature = signData(signer.Keys, m.hashData())
@@ -1078,6 +1126,9 @@ func (sw *SW) opRead(st sim.Step) {
 		sw.probeFirst("read_redeem")
 		if ctr > cur {
 			sw.probeFirst("read_redeem_charged")
+		}
+		if olderTS && m.ReadCounter > cur {
+			sw.W.Tr.Probe("read_redeem_older_timestamp_higher_counter")
 		}
 		sw.lastRead = append(sw.lastRead, string(raw))
 	}
